@@ -14,10 +14,13 @@
    estimate and sampled reversible competitors; proved here: first-order conditions, strict
    coordinate-wise maximality of the full log-likelihood, and global optimality for two states),
    IEEE rounding.  Round 2 additions start at "ROUND 2" below (Proof/PrinzFixed.v, PrinzMax.v,
-   PrinzLik.v, PrinzStop.v).
+   PrinzLik.v, PrinzStop.v).  Round 3 additions start at "ROUND 3" (Proof/PrinzMono.v): the iteration is a
+   coordinate ascent -- every update and every sweep is monotone in the log-likelihood, strictly unless
+   nothing changes; the returned model is at least as likely as the transpose estimate; the likelihood
+   VALUES along the iteration converge.  Still not proved: convergence of X, global optimality n >= 3.
    Theorems over R depend on the standard library's axioms of the reals (printed below). *)
 From Coq Require Import List ZArith QArith Qabs Reals.
-From EV Require Import Prinz PrinzGen PrinzProofs PrinzSweep PrinzCert PrinzFixed PrinzMax PrinzLik PrinzStop.
+From EV Require Import Prinz PrinzGen PrinzProofs PrinzSweep PrinzCert PrinzFixed PrinzMax PrinzLik PrinzStop PrinzMono.
 Import ListNotations.
 Open Scope R_scope.
 
@@ -469,3 +472,164 @@ Example c12_example_stop :
   cnt (py_run_stop (QOps 48) (QLOps 48) 3 C (1 # 10000000000) 28) = Some (28%nat, true).
 Proof. vm_compute. repeat split. Qed.
 Print Assumptions c12_example_stop.
+
+
+(* ====================================================================== ROUND 3
+   Monotone likelihood.  loglikT n C X = sum_kl c_kl ln (x_kl / x_k) is the log-likelihood on C of the
+   model T = X / rowsum X the function would return from the state X.  Coq's ln is total (ln x = 0 for
+   x <= 0) while the true log-likelihood is -infinity when T_kl = 0 < c_kl, so the statements are about
+   states in which X is positive exactly where C + C^T is:
+     Sup n C s    :=  forall i j < n,  0 < x_ij  <->  0 < c_ij + c_ji      (the initial state has it),
+     has_in n C   :=  for n >= 2 every state receives a count from another state (from strong connectivity).
+   Without has_in the support is lost (c12_source_state_loses_support below; the real functions then
+   produce a NaN row and fail their final assertion -- input outside the property's quantifier). *)
+
+Theorem c12_initial_state_has_support : forall n C, Sup n C (init_state ROps n C).
+Proof. exact init_Sup. Qed.
+Print Assumptions c12_initial_state_has_support.
+
+Theorem c12_strongly_connected_has_in : forall n C, strongly_connected n C -> has_in n C.
+Proof. exact sc_has_in. Qed.
+Print Assumptions c12_strongly_connected_has_in.
+
+(* ---- every single DIAGONAL update the sweep performs (on the state and with the running row sum the
+        code has at that moment) keeps the invariants and does not decrease the log-likelihood; it
+        increases it strictly when it changes the entry *)
+Theorem c12_diag_update_monotone : forall n C Crs,
+  CInv n C Crs -> (forall k, (k < n)%nat -> 0 < Crs k) ->
+  forall s i, Inv n s -> Sup n C s -> (i < n)%nat ->
+  let s' := diag_step (py_diag ROps) C Crs s i in
+  Inv n s' /\ Sup n C s' /\ loglikT n C (fst s) <= loglikT n C (fst s') /\
+  (fst s' i i <> fst s i i -> loglikT n C (fst s) < loglikT n C (fst s')).
+Proof. exact diag_update_monotone. Qed.
+Print Assumptions c12_diag_update_monotone.
+
+(* ---- the same for every PAIRWISE update (i, j), i < j *)
+Theorem c12_pair_update_monotone : forall n C Crs,
+  CInv n C Crs -> has_in n C -> (forall k, (k < n)%nat -> 0 < Crs k) ->
+  forall s i j, Inv n s -> Sup n C s -> (i < j < n)%nat ->
+  let s' := off_step (py_offdiag ROps) C Crs s (i, j) in
+  Inv n s' /\ Sup n C s' /\ loglikT n C (fst s) <= loglikT n C (fst s') /\
+  (fst s' i j <> fst s i j -> loglikT n C (fst s) < loglikT n C (fst s')).
+Proof. exact pair_update_monotone. Qed.
+Print Assumptions c12_pair_update_monotone.
+
+(* ---- hence one whole sweep (diagonal loop, then pair loop, in the code's order) *)
+Theorem c12_sweep_monotone : forall n C Crs,
+  CInv n C Crs -> has_in n C -> (forall k, (k < n)%nat -> 0 < Crs k) ->
+  forall s, Inv n s -> Sup n C s ->
+  let s' := py_sweep ROps C Crs n s in
+  Inv n s' /\ Sup n C s' /\ loglikT n C (fst s) <= loglikT n C (fst s').
+Proof. exact sweep_monotone. Qed.
+Print Assumptions c12_sweep_monotone.
+
+(* ---- strict increase unless fixed: a sweep that changes some entry of X strictly increases the
+        log-likelihood ... *)
+Theorem c12_sweep_strict_increase_unless_fixed : forall n C Crs,
+  CInv n C Crs -> has_in n C -> (forall k, (k < n)%nat -> 0 < Crs k) ->
+  forall s, Inv n s -> Sup n C s ->
+  (exists i j, fst (py_sweep ROps C Crs n s) i j <> fst s i j) ->
+  loglikT n C (fst s) < loglikT n C (fst (py_sweep ROps C Crs n s)).
+Proof. exact sweep_strict. Qed.
+Print Assumptions c12_sweep_strict_increase_unless_fixed.
+
+(* ... so the likelihood is unchanged by a sweep exactly at the fixed points of the updates ... *)
+Theorem c12_sweep_loglik_equal_iff_fixed : forall n C Crs,
+  CInv n C Crs -> has_in n C -> (forall k, (k < n)%nat -> 0 < Crs k) ->
+  forall s, Inv n s -> Sup n C s ->
+  (loglikT n C (fst (py_sweep ROps C Crs n s)) = loglikT n C (fst s) <-> is_fixed n C Crs s).
+Proof. exact sweep_loglik_equal_iff_fixed. Qed.
+Print Assumptions c12_sweep_loglik_equal_iff_fixed.
+
+(* ... and, for strongly connected counts, only where the Prinz equations hold *)
+Theorem c12_loglik_stalls_only_at_prinz_solution : forall n C Crs s,
+  CInv n C Crs -> strongly_connected n C -> (forall k, (k < n)%nat -> 0 < Crs k) ->
+  Inv n s -> Sup n C s ->
+  loglikT n C (fst (py_sweep ROps C Crs n s)) = loglikT n C (fst s) ->
+  forall i j, (i < n)%nat -> (j < n)%nat ->
+    fst s i j * (Crs i / snd s i + Crs j / snd s j) = C i j + C j i.
+Proof. exact sc_loglik_stalls_at_prinz_solution. Qed.
+Print Assumptions c12_loglik_stalls_only_at_prinz_solution.
+
+(* ---- by induction: along the iteration from X0 = C + C^T the log-likelihood never decreases, and is
+        never below that of the transpose-symmetrised counts *)
+Theorem c12_iteration_monotone : forall n C Crs,
+  CInv n C Crs -> has_in n C -> (forall k, (k < n)%nat -> 0 < Crs k) ->
+  forall k, let u := fun m => Nat.iter m (py_sweep ROps C Crs n) (init_state ROps n C) in
+  Sup n C (u k) /\
+  loglikT n C (fst (u k)) <= loglikT n C (fst (u (S k))) /\
+  loglikT n C (fun i j => C i j + C j i) <= loglikT n C (fst (u k)).
+Proof. exact iteration_monotone. Qed.
+Print Assumptions c12_iteration_monotone.
+
+(* the property's quantifier: strongly connected counts *)
+Theorem c12_iteration_monotone_strongly_connected : forall n C Crs,
+  CInv n C Crs -> strongly_connected n C -> (forall k, (k < n)%nat -> 0 < Crs k) ->
+  forall k, let u := fun m => Nat.iter m (py_sweep ROps C Crs n) (init_state ROps n C) in
+  loglikT n C (fst (u k)) <= loglikT n C (fst (u (S k))) /\
+  loglikT n C (fun i j => C i j + C j i) <= loglikT n C (fst (u k)).
+Proof. exact sc_iteration_monotone. Qed.
+Print Assumptions c12_iteration_monotone_strongly_connected.
+
+(* ---- the state the stopping loop ends in (any logl terms, any test, any tol, any iteration cap) *)
+Theorem c12_stopped_state_loglik : forall (lo : LOps R) dgl odl cont n C Crs tol fuel,
+  CInv n C Crs -> has_in n C -> (forall k, (k < n)%nat -> 0 < Crs k) ->
+  let r := prinz_loop ROps (py_diag ROps) (py_offdiag ROps) dgl odl cont C Crs n tol fuel 0 (init_state ROps n C) 0 in
+  loglikT n C (fun i j => C i j + C j i) <= loglikT n C (fst (fst (fst r))).
+Proof. exact stopped_loglik. Qed.
+Print Assumptions c12_stopped_state_loglik.
+
+(* ---- clause "log-likelihood at least that of ... the transpose-symmetrised estimate": the transition
+        matrix T (nested list) the whole function returns -- guards passed, stopping rule and iteration
+        cap whatever they are, with or without the warning -- has  sum_kl c_kl ln T_kl  >=  that of
+        (C + C^T) / rowsum.  Exact real arithmetic; no tolerance needed. *)
+Theorem c12_returned_model_loglik_ge_transpose : forall dgl odl cont n (C : nat -> nat -> R) tol max_iter T pi k w,
+  (forall i j, (i < n)%nat -> (j < n)%nat -> 0 <= C i j) -> has_in n C -> (1 <= max_iter)%nat ->
+  prinz_run_stop ROps (py_diag ROps) (py_offdiag ROps) dgl odl cont n C tol max_iter = Some ((T, pi), k, w) ->
+  loglikP n C (fun i j => (C i j + C j i) / sumR n (fun l => C i l + C l i)) <= loglikP n C (matR T).
+Proof. exact run_stop_loglik. Qed.
+Print Assumptions c12_returned_model_loglik_ge_transpose.
+
+(* ---- bounded above (Gibbs, c12_loglik_le_counts) + monotone: the sequence of likelihood VALUES along the
+        iteration converges, to a limit between every value of the sequence and the likelihood of the
+        row-normalised counts.  This is NOT convergence of the matrices X_k, and says nothing about the
+        code's own stopping test (which watches a different quantity, the pseudo log-likelihood logl). *)
+Theorem c12_loglik_sequence_converges : forall n C Crs,
+  CInv n C Crs -> has_in n C -> (forall k, (k < n)%nat -> 0 < Crs k) ->
+  let u := fun k => loglikT n C (fst (Nat.iter k (py_sweep ROps C Crs n) (init_state ROps n C))) in
+  Un_growing u /\
+  exists l, Un_cv u l /\ (forall k, u k <= l) /\
+            l <= sumR n (fun a => sumR n (fun b => C a b * ln (C a b / Crs a))).
+Proof. exact iteration_loglik_converges. Qed.
+Print Assumptions c12_loglik_sequence_converges.
+
+(* ... in particular the gain in log-likelihood of one more sweep is >= 0 and tends to 0 *)
+Theorem c12_loglik_gain_vanishes : forall n C Crs,
+  CInv n C Crs -> has_in n C -> (forall k, (k < n)%nat -> 0 < Crs k) ->
+  let u := fun k => loglikT n C (fst (Nat.iter k (py_sweep ROps C Crs n) (init_state ROps n C))) in
+  (forall k, 0 <= u (S k) - u k) /\ Un_cv (fun k => u (S k) - u k) 0.
+Proof. exact iteration_gain_vanishes. Qed.
+Print Assumptions c12_loglik_gain_vanishes.
+
+(* ---- why has_in is there: C = [[0,2],[0,3]] passes both guards, X0 has the support of C + C^T, state 0
+        receives no count, and the pairwise update (0,1) stores x_01 = 0 although c_01 > 0 (row 0 of X
+        becomes zero; replayed on the real functions: NaN row, final assertion fails) *)
+Theorem c12_source_state_loses_support :
+  exists C Crs, CInv 2 C Crs /\ (forall k, (k < 2)%nat -> 0 < Crs k) /\ ~ has_in 2 C /\
+    let s := init_state ROps 2 C in
+    Inv 2 s /\ Sup 2 C s /\ 0 < C 0%nat 1%nat /\
+    fst (off_step (py_offdiag ROps) C Crs s (0, 1)%nat) 0%nat 1%nat = 0.
+Proof. exact has_in_needed. Qed.
+Print Assumptions c12_source_state_loses_support.
+
+(* ---- non-vacuity for round 3: C = [[1,2],[1,1]] is strongly connected, X0 = C + C^T meets every
+        hypothesis above, and the first sweep changes x_00 (2 -> 3/2): the strict case occurs *)
+Example c12_example_monotone :
+  let C := fun i j : nat => match i, j with 0%nat, 1%nat => 2 | _, _ => 1 end in
+  let Crs := fun i : nat => match i with 0%nat => 3 | _ => 2 end in
+  let s := init_state ROps 2 C in
+  CInv 2 C Crs /\ strongly_connected 2 C /\ has_in 2 C /\ (forall k, (k < 2)%nat -> 0 < Crs k) /\
+  Inv 2 s /\ Sup 2 C s /\
+  fst (py_sweep ROps C Crs 2 s) 0%nat 0%nat <> fst s 0%nat 0%nat.
+Proof. exact mono_example. Qed.
+Print Assumptions c12_example_monotone.
